@@ -278,9 +278,50 @@ def clause8_epoll(ctx, P):
         ctx.ob("C06.8 R-BOUND", run, "epoll_wait:maxevents", ok, "epoll_wait may harvest %s events into an array of %s bytes" % (k, ds[0] if ds else "?"))
 
 
+def clause9_unmask(ctx, P):
+    """unmask_payload: the length arithmetic of the aligned fast path does not wrap: every unsigned subtraction outside the
+    loops (bytes before the first aligned word, number of whole words, bytes after the last) is non-negative on every path,
+    given the guard that selects the fast path. A wrapped count turns into an XOR far beyond the frame."""
+    from ..core.pathmem import PathEval, a_add, a_fmt
+    f = P.fn("websocket.c:unmask_payload")
+    inloop = set()
+    for h, body in f.loops().items():
+        inloop |= body
+    n = 0
+    bad = None
+    seen = set()
+    for p in P.paths(f, loop_iters=1):
+        pe = PathEval(P, f, Q.PathView(P, f, p), watch_ops=("sub",))
+        for e in pe.events:
+            if e.kind != "op" or e.inst.block in inloop or e.inst.ty not in ("i64", "i32"):
+                continue
+            n += 1
+            if not pe.entails(e.data["value"], upto=e.pos):
+                if e.inst.id not in seen:
+                    seen.add(e.inst.id)
+                    bad = (pe, e)
+    ctx.ob("C06.6 R-BOUND", f, "length-arithmetic-does-not-wrap", bad is None and n >= 3,
+           "%s - %s at %s can be negative on a path into the aligned fast path (nothing on the path bounds the payload length from "
+           "below by the alignment slack): the wrapped value becomes a word count / byte count and the mask is XORed far beyond the "
+           "frame" % (a_fmt(bad[1].data["x"]), a_fmt(bad[1].data["y"]), bad[1].inst.loc) if bad else "%d subtractions checked" % n,
+           witness=bad[0].view.witness() if bad else None)
+    # every access to the 4-byte mask is indexed modulo 4
+    okm = True
+    nm = 0
+    for i in f.all_insts():
+        if i.op == "load":
+            t = P.term(f, i.a[0])
+            if t[0] == "index" and t[1] == ("param", 2, f.params[2]["name"]):
+                nm += 1
+                idx = t[2]
+                okm = okm and idx[0] == "op" and ((idx[1] == "urem" and idx[2][1] == ("const", 4)) or (idx[1] == "and" and idx[2][1] == ("const", 3)))
+    ctx.ob("C06.6 R-BOUND", f, "mask-index-modulo-4", okm and nm >= 3, "the masking key is read at an index that is not reduced modulo 4")
+
+
 def run(ctx):
     for cfg in ctx.configs():
         P, cg = cfg.P, cfg.cg
+        clause9_unmask(ctx, P)
         clause1_snprintf(ctx, P)
         c16.clause6_slots(ctx, P, cg)
         c12.clause2_callbacks(ctx, P, cg)
